@@ -2,6 +2,7 @@ package main
 
 import (
 	"fmt"
+	"regexp"
 	"strings"
 	"time"
 
@@ -26,8 +27,8 @@ type zStruct struct {
 }
 type zInner struct{ V float64 }
 
-func (z zStruct) Hello() string   { return "hi " + z.Name }
-func (z *zStruct) PtrM() []int    { return []int{1, 2} }
+func (z zStruct) Hello() string     { return "hi " + z.Name }
+func (z *zStruct) PtrM() []int      { return []int{1, 2} }
 func (z zStruct) WithArg(i int) int { return i }
 
 type zEmbed struct {
@@ -53,8 +54,53 @@ func zooValues() map[string]any {
 		"nm": nilMap, "mm": map[string]map[string]int{"x": {"y": 1}},
 		"st": zStruct{Name: "N", Tags: []string{"t"}}, "sp": &zStruct{Name: "P", Inner: &zInner{1.5}}, "np": nilPtr, "em": zEmbed{}, "emp": &zEmbed{zInner: &zInner{2}},
 		"str": zStringer{}, "fn": func() string { return "f" }, "ch": ch, "t": time.Unix(0, 0).UTC(), "pp": new(*int),
+		// long sequences (the membership test and the sort filters switch algorithm with the length), holding values
+		// that cannot be hashed or compared
+		"long": longList(60, nil), "longm": longList(60, map[string]interface{}{"id": 1}), "longl": longList(75, []interface{}{1, 2}), "longf": longList(52, func() {}),
+		"longrec": longRecords(51), "longs": longStrings(64), "longany": longAny(60),
 	}
 }
+
+func longList(n int, last interface{}) []interface{} {
+	out := make([]interface{}, n)
+	for i := range out {
+		out[i] = i
+	}
+	if last != nil {
+		out[n-1] = last
+		out[n/2] = last
+	}
+	return out
+}
+
+func longRecords(n int) []interface{} {
+	out := make([]interface{}, n)
+	for i := range out {
+		out[i] = map[string]interface{}{"id": i, "tags": []interface{}{"a", "b"}}
+	}
+	return out
+}
+
+func longStrings(n int) []string {
+	out := make([]string, n)
+	for i := range out {
+		out[i] = fmt.Sprint("s", i)
+	}
+	return out
+}
+
+// longAny is a typed slice whose static element type is comparable (interface) and whose dynamic elements are not.
+func longAny(n int) []fmt.Stringer {
+	out := make([]fmt.Stringer, n)
+	for i := range out {
+		out[i] = zUnhashable{[]int{i}}
+	}
+	return out
+}
+
+type zUnhashable struct{ xs []int }
+
+func (z zUnhashable) String() string { return fmt.Sprint(z.xs) }
 
 var zooTemplates = []string{
 	"{{ V }}", "{{ V|length }}", "{{ V|first }}", "{{ V|last }}", "{{ V|reverse }}", "{{ V|sort }}", "{{ V|keys }}", "{{ V|join(',') }}", "{{ V|slice(1) }}", "{{ V|slice(-1, 5) }}",
@@ -63,10 +109,50 @@ var zooTemplates = []string{
 	"{{ V|format(1) }}", "{{ V|spaceless }}", "{{ V|raw }}", "{{ V|count }}",
 	"{% for x in V %}{{ x }}{{ loop.index }}{% else %}E{% endfor %}", "{% for k, x in V %}{{ k }}={{ x }}{% endfor %}",
 	"{{ V.Name }}{{ V.name }}{{ V.Hello }}{{ V.PtrM }}{{ V.WithArg }}{{ V.Inner.V }}{{ V.V }}{{ V.priv }}{{ V.nosuch.deeper }}", "{{ V[0] }}{{ V['a'] }}{{ V[n] }}{{ V[-1] }}{{ V[99] }}{{ V[V] }}",
-	"{{ V + 1 }}{{ V ~ 'x' }}{{ V == V }}{{ V < 2 }}", "{{ V * V }}", "{{ V / 1 }}", "{{ V % 2 }}", "{{ V ^ 2 }}", "{{ -V }}{{ not V }}", "{{ 1 in V }}{{ V in V }}{{ 'a' in V }}", "{{ V starts with 'h' }}{{ V ends with V }}", "{{ V matches '/h/' }}",
+	"{{ V + 1 }}{{ V ~ 'x' }}{{ V == V }}{{ V < 2 }}", "{{ V * V }}", "{{ V / 1 }}", "{{ V % 2 }}", "{{ V ^ 2 }}", "{{ -V }}{{ not V }}", "{{ 1 in V }}{{ V in V }}{{ 'a' in V }}", "{{ 700 in V }}{{ 'x' not in V }}{{ [1] in V }}{{ {'id': 1} in V }}{{ V|first in V }}{{ V|last in V }}", "{{ V starts with 'h' }}{{ V ends with V }}", "{{ V matches '/h/' }}",
 	"{% if V %}T{% else %}F{% endif %}", "{{ V is defined }}{{ V is empty }}{{ V is iterable }}{{ V is null }}", "{{ V is even }}", "{{ V is divisible_by(2) }}", "{{ V is same_as(V) }}",
 	"{{ V ? 1 : 2 }}", "{{ max(V) }}{{ min(V) }}", "{{ max(V, 1) }}", "{{ range(V) }}", "{{ range(0, V) }}", "{{ length(V) }}", "{{ merge(V, V) }}", "{{ cycle(V, 1) }}", "{{ date(V) }}", "{{ dump(V)|length > 0 }}", "{{ json_encode(V) }}",
 	"{% set q = V %}{{ q }}", "{% include 't2' with {'v': V} only %}", "{{ V|first|first }}", "{{ V|keys|first }}", "{{ V|reverse|join }}", "{{ {'k': V}|keys }}", "{{ [V, V]|length }}",
+}
+
+var reMacroDef = regexp.MustCompile(`macro\s+([A-Za-z_][A-Za-z0-9_]*)`)
+
+// mayRecurse over-approximates "the template can re-enter itself": it names itself, or a macro body mentions
+// _self or calls a macro defined in the same source.
+func mayRecurse(src string) bool {
+	if strings.Contains(src, "main") {
+		return true
+	}
+	defs := reMacroDef.FindAllStringSubmatchIndex(src, -1)
+	if len(defs) == 0 {
+		return false
+	}
+	var names []string
+	for _, d := range defs {
+		names = append(names, src[d[2]:d[3]])
+	}
+	for _, d := range defs {
+		body := src[d[1]:]
+		if k := strings.Index(body, "endmacro"); k >= 0 {
+			body = body[:k]
+		}
+		if strings.Contains(body, "_self") {
+			return true
+		}
+		for _, nme := range names {
+			for rest := body; ; {
+				k := strings.Index(rest, nme)
+				if k < 0 {
+					break
+				}
+				rest = rest[k+len(nme):]
+				if t := strings.TrimLeft(rest, " \t\r\n"); strings.HasPrefix(t, "(") {
+					return true
+				}
+			}
+		}
+	}
+	return false
 }
 
 func runC05(e *Env) error {
@@ -122,13 +208,15 @@ func runC05(e *Env) error {
 					src = string(b)
 				}
 			}
-			if i%50 == 1 {
+			if i%8 == 1 {
 				src += strings.Repeat(" ", 4100) // the large-template tokenizer
 			}
 		}
-		tpls := map[string]string{"main": src}
-		for k, v := range libs {
-			tpls[k] = v
+		// "Recursion that the template itself writes without a terminating condition" is outside the guarantee and
+		// would overflow the Go stack (fatal, not recoverable): such sources are parsed but not rendered.
+		parseOnly := mayRecurse(src)
+		if parseOnly {
+			r.Hit("src-self-recursive-parse-only")
 		}
 		res := guarded(func() (string, error) {
 			eng := twig.New()
@@ -141,6 +229,9 @@ func runC05(e *Env) error {
 					return "", fmt.Errorf("ENGINE-UNUSABLE after parse error: %v %q", err2, out)
 				}
 				return "", fmt.Errorf("parsing error: %w", err)
+			}
+			if parseOnly {
+				return "", nil
 			}
 			out, err := eng.Render("main", ctx)
 			if out2, err2 := eng.Render("t2", map[string]interface{}{"v": "ok"}); err2 != nil || out2 != "ok" {
@@ -158,6 +249,31 @@ func runC05(e *Env) error {
 		}
 		if i < 2 {
 			r.Sample(map[string]any{"mutated_source": truncate(src, 200), "class": res.Class})
+		}
+	}
+	// (a2) every tag with content of length ≤ 3 over {dash, space, letter, quote}, small and in a large template
+	// (the large-template tokenizer is a separate code path chosen by source length)
+	padding := strings.Repeat("<p>lorem ipsum dolor sit amet</p>\n", 130)
+	for _, edge := range tagEdgeCorpus() {
+		for _, src := range []string{edge, padding + edge + padding, padding + edge} {
+			if r.Full() {
+				return nil
+			}
+			res := guarded(func() (string, error) {
+				eng := twig.New()
+				if err := eng.RegisterString("main", src); err != nil {
+					return "", fmt.Errorf("parsing error: %w", err)
+				}
+				return eng.Render("main", ctx)
+			})
+			r.Seen("edge:"+src, true)
+			r.Hit("edge-class:" + res.Class)
+			if res.Class == "panic" || res.Class == "timeout" {
+				if report("panic-or-hang-source", fmt.Sprintf("template source %q (%d bytes): %s %s", truncate(edge, 100), len(src), res.Class, truncate(res.Panic, 300)),
+					map[string]any{"kind": "src", "src_hex": hx(src), "class": res.Class, "panic": res.Panic, "err": fmt.Sprint(res.Err)}) {
+					return nil
+				}
+			}
 		}
 	}
 	// (b) zoo
